@@ -13,8 +13,11 @@ package sqlx_test
 
 import (
 	"context"
+	"database/sql"
+	"database/sql/driver"
 	"errors"
 	"fmt"
+	"io"
 	"sync/atomic"
 	"testing"
 	"time"
@@ -38,6 +41,9 @@ type c11TxCase struct {
 	// CtxMode (TransactCtx only): "" live context | cancelled-before the call | cancelled-by-body just
 	// before the body returns or panics | deadline-in-body: a 1 ms deadline the body waits out first
 	CtxMode   string `json:"ctx,omitempty"`
+	// ErrKind: which error value the body returns / panics with ("" = the harness' own error);
+	// sentinels the library itself treats specially must come back like any other error
+	ErrKind   string `json:"err,omitempty"`
 	PrepFault bool   `json:"prep_fault,omitempty"` // the fault of statement StmtFault (a prepared statement) hits Prepare, not the execution
 	IterFault     bool   `json:"iter_fault,omitempty"` // the fault of statement StmtFault (a single-row query) hits the fetch of its first row, not the call
 	CommitFault   bool   `json:"commit_fault,omitempty"`
@@ -70,6 +76,22 @@ var c11AsyncWaitSpent atomic.Bool
 
 var (
 	c11ErrBody = errors.New("c11: body error")
+
+	c11ErrKinds    = []string{"sql.ErrTxDone", "sql.ErrNoRows", "sql.ErrConnDone", "context.Canceled", "context.DeadlineExceeded", "breaker.ErrServiceUnavailable", "driver.ErrBadConn", "io.EOF", "wrapped(sql.ErrTxDone)", "wrapped(sql.ErrNoRows)", "wrapped(context.Canceled)"}
+	c11ErrKindVals = map[string]error{
+		"":                              c11ErrBody,
+		"sql.ErrTxDone":                 sql.ErrTxDone,
+		"sql.ErrNoRows":                 sql.ErrNoRows,
+		"sql.ErrConnDone":               sql.ErrConnDone,
+		"context.Canceled":              context.Canceled,
+		"context.DeadlineExceeded":      context.DeadlineExceeded,
+		"breaker.ErrServiceUnavailable": breaker.ErrServiceUnavailable,
+		"driver.ErrBadConn":             driver.ErrBadConn,
+		"io.EOF":                        io.EOF,
+		"wrapped(sql.ErrTxDone)":        fmt.Errorf("c11: step 3 failed: %w", sql.ErrTxDone),
+		"wrapped(sql.ErrNoRows)":        fmt.Errorf("c11: lookup: %w", sql.ErrNoRows),
+		"wrapped(context.Canceled)":     fmt.Errorf("c11: aborted: %w", context.Canceled),
+	}
 )
 
 func c11Call(api string, conn sqlx.Conn, ctx context.Context, body func(context.Context, sqlx.Session) error) error {
@@ -222,10 +244,10 @@ func c11RunTxWith(c c11TxCase, rec *c11Rec, call func(context.Context, func(cont
 			o.bodyKind = "nil"
 			return nil
 		case "error":
-			o.bodyKind, o.bodyErr = "error", c11ErrBody
-			return c11ErrBody
+			o.bodyKind, o.bodyErr = "error", c11ErrKindVals[c.ErrKind]
+			return o.bodyErr
 		case "panic-error":
-			panic(c11ErrBody)
+			panic(c11ErrKindVals[c.ErrKind])
 		case "panic-string":
 			panic("c11: boom")
 		default:
@@ -499,6 +521,20 @@ func c11TxTable() []c11TxCase {
 			}
 		}
 	}
+	// body errors drawn from the values the library (or database/sql, or the breaker) treats specially
+	for ai, api := range apis {
+		for _, oc := range []string{"error", "panic-error"} {
+			for n := 0; n <= 1; n++ {
+				for k := 0; k <= n; k++ {
+					for _, kind := range c11ErrKinds {
+						for _, rf := range []bool{false, true} {
+							out = append(out, c11TxCase{API: api, N: n, Outcome: oc, K: k, Kinds: c11Kinds(n, ai), StmtFault: -1, ErrKind: kind, RollbackFault: rf})
+						}
+					}
+				}
+			}
+		}
+	}
 	// context dimension (TransactCtx entry points, bodies of n <= 2 statements)
 	base := len(out)
 	for _, mode := range []string{"cancelled-before", "cancelled-by-body", "deadline-in-body"} {
@@ -519,7 +555,7 @@ func c11TxTable() []c11TxCase {
 // first-row fetch of a single-row query j < k with reaction propagate/notfound-continue}
 // x Commit fault x Rollback fault x the four public entry points.
 func TestVerifC11TxTable(t *testing.T) {
-	m := vk.New(t, "C11", "complete table: entry point {sqlx,sqlc}.{Transact,TransactCtx} x body of n<=3 statements (exec/query/prepared) x outcome {nil,error,panic(error),panic(string),runtime panic} at every position k<=n x driver fault {none, Begin, statement j<k with body reaction propagate|swallow|panic, first-row fetch (driver.Rows.Next) of single-row query j<k with body reaction propagate|continue-on-ErrNotFound} x Commit fault x Rollback fault; for TransactCtx and n<=2 additionally x context {cancelled before the call, cancelled by the body just before it returns/panics, 1 ms deadline that expires during the body}; on a recording database/sql driver; oracle per transaction: nil <=> one successful Commit and no Rollback, otherwise one Rollback and no Commit (one failed Commit returned; neither if Begin failed), body error returned unless Rollback failed too, panic never nil, a failed first-row fetch is reported to the body as an error that is not ErrNotFound; non-trivial = a transaction reached the driver")
+	m := vk.New(t, "C11", "complete table: entry point {sqlx,sqlc}.{Transact,TransactCtx} x body of n<=3 statements (exec/query/prepared) x outcome {nil,error,panic(error),panic(string),runtime panic} at every position k<=n (for n<=1 the error / panic value also drawn from sql.ErrTxDone, sql.ErrNoRows, sql.ErrConnDone, context.Canceled, context.DeadlineExceeded, breaker.ErrServiceUnavailable, driver.ErrBadConn, io.EOF and %w-wrapped variants) x driver fault {none, Begin, statement j<k with body reaction propagate|swallow|panic, first-row fetch (driver.Rows.Next) of single-row query j<k with body reaction propagate|continue-on-ErrNotFound} x Commit fault x Rollback fault; for TransactCtx and n<=2 additionally x context {cancelled before the call, cancelled by the body just before it returns/panics, 1 ms deadline that expires during the body}; on a recording database/sql driver; oracle per transaction: nil <=> one successful Commit and no Rollback, otherwise one Rollback and no Commit (one failed Commit returned; neither if Begin failed), body error returned unless Rollback failed too, panic never nil, a failed first-row fetch is reported to the body as an error that is not ErrNotFound; non-trivial = a transaction reached the driver")
 	defer m.Done()
 	table := c11TxTable()
 	classes := map[string]int64{}
@@ -688,6 +724,9 @@ func TestVerifC11TxHistories(t *testing.T) {
 			}
 			if (c.API == "sqlx.TransactCtx" || c.API == "sqlc.TransactCtx") && r.Intn(3) == 0 {
 				c.CtxMode = []string{"cancelled-before", "cancelled-by-body", "deadline-in-body"}[r.Intn(3)]
+			}
+			if r.Intn(3) == 0 {
+				c.ErrKind = c11ErrKinds[r.Intn(len(c11ErrKinds))]
 			}
 			c.CommitFault = r.Intn(4) == 0
 			c.RollbackFault = r.Intn(4) == 0
